@@ -61,6 +61,27 @@ def purity(E):
 
 
 OFF = "ite(self.options.processes > 1 and not bool(self.options.resume_layer), 1, 0)"
+T = "self.tests_by_layer_name"
+Y = "G.__yield__"
+RNG = lambda a: "(%s <= %s and %s < len(%s))" % (OFF, a, a, Y)
+ENTRY = lambda a: ("({Y}[{a}][0] in {T} and {Y}[{a}][1] == layer_of({Y}[{a}][0]) and {Y}[{a}][2] == {T}[{Y}[{a}][0]])"
+                   .format(Y=Y, T=T, a=a))
+# invariants shared by the layer loop (index _i1 over _it1 = order_by_bases(...)) and the name loop (_i2 over _it2)
+COMMON = [
+    "forall(a, Int, implies(%s, %s))" % (RNG('a'), ENTRY('a')),
+    "forall(a, Int, b, Int, implies(%s and %s and a < b, %s[a][0] != %s[b][0]))" % (RNG('a'), RNG('b'), Y, Y),
+    # groups come in the order of the layers
+    "forall(a, Int, b, Int, u, Int, v, Int, implies(%s and %s and a < b and 0 <= u and u < len(_it1) and 0 <= v and"
+    " v < len(_it1) and _it1[u] == %s[a][1] and _it1[v] == %s[b][1], u <= v))" % (RNG('a'), RNG('b'), Y, Y),
+    "len(%s) >= %s" % (Y, OFF),
+    "implies(%s == 1, %s[0][1] == EmptyLayerObj())" % (OFF, Y),
+    "distinct(_it1)", "bases_first(_it1)",
+    "forall(u, Int, implies(0 <= u and u < len(_it1), _it1[u] != object and _it1[u] in layer_names))",
+    "forall(n, Str, implies(n in %s, layer_of(n) in layer_names))" % T,
+    "forall(x, Layer, implies(x in layer_names, exists(u, Int, 0 <= u and u < len(_it1) and _it1[u] == x)))",
+    "forall(n, Str, implies(n in %s and layer_of(n) == UnitTests, _it1[0] == UnitTests))" % T,
+]
+DONE = lambda i: "exists(u, Int, 0 <= u and u < %s and _it1[u] == %%s)" % i
 
 ORDERED = {
     'property': ['C10', 'C03'],
@@ -69,38 +90,46 @@ ORDERED = {
     'self_fields': {'options': 'Rec[Options]', 'tests_by_layer_name': 'Dict[Str,Suite]'},
     'returns': 'List[Tuple[Str,Layer,Suite]]',
     'locals': {'layer_names': 'Dict[Layer,Str]'},
-    'requires': ["WF()",
-                 # two registered names never denote the same layer object (names come from name_from_layer)
-                 "forall(a, Str, b, Str, implies(a in self.tests_by_layer_name and b in self.tests_by_layer_name"
-                 " and layer_of(a) == layer_of(b), a == b))"],
+    'requires': ["WF()"],
     'modifies': [],
     'ensures': [
-        # one group per registered layer name: nothing invented, nothing lost, none twice
-        "forall(i, Int, implies(%s <= i and i < len(result), result[i][0] in self.tests_by_layer_name"
-        " and result[i][1] == layer_of(result[i][0]) and result[i][2] == self.tests_by_layer_name[result[i][0]]))" % OFF,
-        "forall(n, Str, implies(n in self.tests_by_layer_name,"
-        " exists(i, Int, %s <= i and i < len(result) and result[i][0] == n)))" % OFF,
-        "forall(i, Int, j, Int, implies(%s <= i and i < j and j < len(result), result[i][1] != result[j][1]"
-        " and result[i][0] != result[j][0]))" % OFF,
+        # one group per registered layer name: nothing invented, nothing lost, none twice -- also when several names
+        # denote one layer object
+        "forall(i, Int, implies(%s <= i and i < len(result), result[i][0] in %s"
+        " and result[i][1] == layer_of(result[i][0]) and result[i][2] == %s[result[i][0]]))" % (OFF, T, T),
+        "forall(n, Str, implies(n in %s, exists(i, Int, %s <= i and i < len(result) and result[i][0] == n)))" % (T, OFF),
+        "forall(i, Int, j, Int, implies(%s <= i and i < j and j < len(result), result[i][0] != result[j][0]))" % OFF,
         # a layer never comes before one of its bases that is registered too
         "forall(v, Int, w, Int, implies(%s <= v and v < len(result) and %s <= w and w < len(result) and"
         " isanc(result[w][1], result[v][1]) and result[w][1] != result[v][1], w < v))" % (OFF, OFF),
+        # the groups of one layer are contiguous
+        "forall(a, Int, b, Int, c, Int, implies(%s <= a and a < b and b < c and c < len(result) and"
+        " result[a][1] == result[c][1], result[b][1] == result[a][1]))" % OFF,
         # the unit-test layer comes first (after the empty hand-over group of a -j N parent)
-        "forall(n, Str, implies(n in self.tests_by_layer_name and layer_of(n) == UnitTests,"
-        " result[%s][1] == UnitTests))" % OFF,
+        "forall(n, Str, implies(n in %s and layer_of(n) == UnitTests, result[%s][1] == UnitTests))" % (T, OFF),
         "len(result) >= %s" % OFF,
         "implies(%s == 1, result[0][1] == EmptyLayerObj())" % OFF,
         "forall(i, Int, implies(0 <= i and i < len(result), result[i][1] != object))",
     ],
     'raises': {},
     'loops': {
-        '#loop1': [
-            "len(G.__yield__) == %s + _i" % OFF,
-            "forall(i, Int, implies(%s <= i and i < len(G.__yield__), G.__yield__[i][1] == _it[i - %s]"
-            " and G.__yield__[i][0] == layer_names[_it[i - %s]]"
-            " and G.__yield__[i][2] == self.tests_by_layer_name[layer_names[_it[i - %s]]]))" % (OFF, OFF, OFF, OFF),
-            "forall(j, Int, implies(0 <= j and j < _i, G.__yield__[%s + j][0] == layer_names[_it[j]]))" % OFF,
-            "implies(%s == 1, G.__yield__[0][1] == EmptyLayerObj())" % OFF,
+        '#loop1': COMMON + [
+            "forall(a, Int, implies(%s, %s))" % (RNG('a'), DONE('_i1') % (Y + '[a][1]')),
+            "forall(n, Str, implies(n in %s and %s, exists(a, Int, %s and %s[a][0] == n)))"
+            % (T, DONE('_i1') % 'layer_of(n)', RNG('a'), Y),
+        ],
+        '#loop2': COMMON + [
+            "0 <= _i1 and _i1 < len(_it1) and layer == _it1[_i1]",
+            "forall(a, Int, implies(%s, %s or (%s[a][1] == layer and"
+            " exists(q, Int, 0 <= q and q < _i2 and _it2[q] == %s[a][0]))))" % (RNG('a'), DONE('_i1') % (Y + '[a][1]'), Y, Y),
+            "forall(n, Str, implies(n in %s and %s, exists(a, Int, %s and %s[a][0] == n)))"
+            % (T, DONE('_i1') % 'layer_of(n)', RNG('a'), Y),
+            "forall(q, Int, implies(0 <= q and q < _i2 and layer_of(_it2[q]) == layer, exists(a, Int, %s and %s[a][0] == _it2[q])))"
+            % (RNG('a'), Y),
+            # the sorted names: exactly the registered names, each once
+            "forall(q, Int, implies(0 <= q and q < len(_it2), _it2[q] in %s))" % T,
+            "forall(n, Str, implies(n in %s, exists(q, Int, 0 <= q and q < len(_it2) and _it2[q] == n)))" % T,
+            "forall(p, Int, q, Int, implies(0 <= p and p < q and q < len(_it2), _it2[p] != _it2[q]))",
         ],
     },
 }
@@ -117,8 +146,8 @@ def register(E):
     E.truthy_sorts['Suite'] = 'always'
     E.records.setdefault('runner.Runner', {})
     E.assumptions += [
-        "layer_from_name(name) is a pure function of the name and never returns `object`; distinct registered names "
-        "denote distinct layers is NOT assumed (the dict comprehension keeps one name per layer object)",
+        "layer_from_name(name) is a pure function of the name and never returns `object` (several registered names may "
+        "denote the same layer object: each name is a group of its own)",
     ]
     purity(E)
     E.add_contract('runner.Runner.ordered_layers', ORDERED)
